@@ -59,6 +59,7 @@ const (
 	flagGlobal    = 1
 	flagHeapWrite = 2
 	flagExit      = 4
+	flagHotGlobal = 8 // the statement assigns to, or calls a method on, something rooted at a package-level variable
 )
 
 var skipDirs = map[string]bool{".git": true, "cmd": true, "fuzz": true, "vendor": true, "testdata": true, "zsim": true}
@@ -475,14 +476,27 @@ func stmtFlags(st ast.Stmt, own map[string]bool, all map[string]map[string]bool)
 					if heapLHS(l) {
 						fl |= flagHeapWrite
 					}
+					if rootedAtGlobal(l, own, all) {
+						fl |= flagHotGlobal
+					}
 				}
 			case *ast.IncDecStmt:
 				if heapLHS(e.X) {
 					fl |= flagHeapWrite
 				}
+				if rootedAtGlobal(e.X, own, all) {
+					fl |= flagHotGlobal
+				}
 			case *ast.CallExpr:
 				if id, ok := e.Fun.(*ast.Ident); ok && (id.Name == "append" || id.Name == "copy" || id.Name == "delete" || id.Name == "clear") {
 					fl |= flagHeapWrite
+					if (id.Name == "delete" || id.Name == "clear" || id.Name == "copy") && len(e.Args) > 0 && rootedAtGlobal(e.Args[0], own, all) {
+						fl |= flagHotGlobal
+					}
+				}
+				// a method call on (a field of) a package-level variable: pool.Get/Put, mu.Lock, buf.Write, cache.put ...
+				if sel, ok := e.Fun.(*ast.SelectorExpr); ok && rootedAtGlobal(sel.X, own, all) {
+					fl |= flagHotGlobal
 				}
 			}
 			return true
@@ -505,6 +519,34 @@ func hasDirectDefer(body *ast.BlockStmt) bool {
 		return !found
 	})
 	return found
+}
+
+// rootedAtGlobal: x, x.f, x[i], x.f[i].g, *x ... where x is a package-level variable of
+// this package, or pkg.X with X a package-level variable of another library package.
+func rootedAtGlobal(e ast.Expr, own map[string]bool, all map[string]map[string]bool) bool {
+	for {
+		switch v := e.(type) {
+		case *ast.Ident:
+			return own[v.Name]
+		case *ast.SelectorExpr:
+			if id, ok := v.X.(*ast.Ident); ok {
+				if m := all[id.Name]; m != nil && m[v.Sel.Name] && !own[id.Name] {
+					return true
+				}
+			}
+			e = v.X
+		case *ast.IndexExpr:
+			e = v.X
+		case *ast.StarExpr:
+			e = v.X
+		case *ast.ParenExpr:
+			e = v.X
+		case *ast.UnaryExpr:
+			e = v.X
+		default:
+			return false
+		}
+	}
 }
 
 func heapLHS(e ast.Expr) bool {
